@@ -1306,6 +1306,12 @@ def _const_index(idx):
         return None
 
 
+def _typed_store(it, a, terms_, value, node):
+    if getattr(a, "like_input", False) and any(n_.op in ("div", "sqrt", "sin", "cos", "tan", "arctan2", "arccos", "arcsin", "degrees", "radians", "exp", "log")
+                                                for t_ in terms_ for n_ in tm.walk(t_)):
+        it.record("typing", "inherited-dtype-store", [a, value], {}, node)
+
+
 def arr_setitem(it, a, idx, value, node):
     if isinstance(idx, Seq) and idx.kind == "tuple" and len(idx.items) == 2 and a.ndim == 2:
         r, c = idx.items
@@ -1321,6 +1327,7 @@ def arr_setitem(it, a, idx, value, node):
         else:
             raise Unsupported("array store column selector", node)
         terms_ = _bcast_cols(value, len(ks), node)
+        _typed_store(it, a, terms_, value, node)
         nd_ = getattr(a, "alloc_dtype", None)
         if nd_ is not None:
             terms_ = [T("narrow", t, const(nd_)) for t in terms_]  # stored into an array of a narrower type: converted on the way in
@@ -1338,6 +1345,10 @@ def arr_setitem(it, a, idx, value, node):
     if a.ndim == 2 and is_mask(idx):
         mask = to_term(idx)
         terms_ = _bcast_cols(value, len(a.cols), node)
+        _typed_store(it, a, terms_, value, node)
+        nd_ = getattr(a, "alloc_dtype", None)
+        if nd_ is not None:
+            terms_ = [T("narrow", t, const(nd_)) for t in terms_]
         a.cols[:] = [mk("ite", mask, t, c) for t, c in zip(terms_, a.cols)]
         it.record("store", "array", [a, idx, value], {}, node)
         return
